@@ -20,7 +20,8 @@ def M(f, t, r=N, a=()):
 KEYS7 = ["A", "B", "C", "D", "LEFTSHIFT", "LEFTCTRL", "F"]   # F: foreign non-modifier
 FROMS = [["A"], ["B"], ["LEFTSHIFT"], ["C", "A"], ["LEFTSHIFT", "A"], ["LEFTSHIFT", "B"], ["C", "B"],
          ["LEFTCTRL", "LEFTSHIFT", "A"], ["C"], ["A", "B"]]
-TOS = [[], ["A"], ["B"], ["D"], ["LEFTSHIFT"], ["LEFTSHIFT", "A"], ["LEFTSHIFT", "D"], ["LEFTCTRL", "D"], ["LEFTCTRL"], ["C"], ["LEFTCTRL", "LEFTSHIFT"]]
+TOS = [[], ["A"], ["B"], ["D"], ["LEFTSHIFT"], ["LEFTSHIFT", "A"], ["LEFTSHIFT", "D"], ["LEFTCTRL", "D"], ["LEFTCTRL"], ["C"], ["LEFTCTRL", "LEFTSHIFT"],
+       ["D", "LEFTCTRL", "B"]]      # an ordinary key listed BEFORE a modifier (a hyper key first)
 REPS = [N, D, S(["E"])]
 
 
